@@ -252,7 +252,10 @@ func (w *SimWriter) Write(p []byte) (int, error) {
 		kind, frac = w.Plan.Events[w.evIdx].Kind, w.Plan.Events[w.evIdx].Frac
 		w.evIdx++
 	}
-	if w.faultIdx < len(w.Plan.FaultAt) && len(w.Got)+len(p) >= w.Plan.FaultAt[w.faultIdx].Off {
+	if w.faultIdx < len(w.Plan.FaultAt) && (len(w.Got)+len(p) > w.Plan.FaultAt[w.faultIdx].Off || (w.Plan.FaultAt[w.faultIdx].Kind != WShort && len(w.Got)+len(p) >= w.Plan.FaultAt[w.faultIdx].Off)) {
+		// (a short write fires only when the write strictly crosses the offset,
+		// so that exactly Off bytes have been accepted at the moment of failure
+		// however the library happens to batch its writes)
 		f := w.Plan.FaultAt[w.faultIdx]
 		w.faultIdx++
 		switch f.Kind {
